@@ -27,7 +27,23 @@ func (o *Obj) Get(k string) (any, bool) {
 
 // DecodeLine checks that payload is exactly one line holding exactly one JSON
 // object and returns it.
-func DecodeLine(payload []byte) (*Obj, error) {
+func DecodeLine(payload []byte) (*Obj, error) { return decodeLine(payload, false) }
+
+// DecodeLineKeepDuplicates is DecodeLine for callers whose property does not speak about member names: a member
+// name that occurs twice is kept twice (syntactically valid JSON), GetLast returns the later one.
+func DecodeLineKeepDuplicates(payload []byte) (*Obj, error) { return decodeLine(payload, true) }
+
+// GetLast returns the last member of that name.
+func (o *Obj) GetLast(k string) (any, bool) {
+	for i := len(o.Keys) - 1; i >= 0; i-- {
+		if o.Keys[i] == k {
+			return o.Vals[i], true
+		}
+	}
+	return nil, false
+}
+
+func decodeLine(payload []byte, dups bool) (*Obj, error) {
 	if len(payload) == 0 || payload[len(payload)-1] != '\n' {
 		return nil, fmt.Errorf("framing: payload does not end with a newline")
 	}
@@ -46,7 +62,7 @@ func DecodeLine(payload []byte) (*Obj, error) {
 	}
 	dec := json.NewDecoder(bytes.NewReader(body))
 	dec.UseNumber()
-	v, err := decodeValue(dec)
+	v, err := decodeValue(dec, dups)
 	if err != nil {
 		return nil, err
 	}
@@ -60,7 +76,7 @@ func DecodeLine(payload []byte) (*Obj, error) {
 	return o, nil
 }
 
-func decodeValue(dec *json.Decoder) (any, error) {
+func decodeValue(dec *json.Decoder, dups bool) (any, error) {
 	t, err := dec.Token()
 	if err != nil {
 		return nil, err
@@ -80,11 +96,11 @@ func decodeValue(dec *json.Decoder) (any, error) {
 					return nil, fmt.Errorf("non-string key")
 				}
 				for _, kk := range o.Keys {
-					if kk == k {
+					if kk == k && !dups {
 						return nil, fmt.Errorf("duplicate member %q", k)
 					}
 				}
-				v, err := decodeValue(dec)
+				v, err := decodeValue(dec, dups)
 				if err != nil {
 					return nil, err
 				}
@@ -98,7 +114,7 @@ func decodeValue(dec *json.Decoder) (any, error) {
 		case '[':
 			arr := []any{}
 			for dec.More() {
-				v, err := decodeValue(dec)
+				v, err := decodeValue(dec, dups)
 				if err != nil {
 					return nil, err
 				}
